@@ -3,23 +3,26 @@
 // A transaction is identified by a number id: its extrinsic is the 8-byte big-endian encoding of id.
 //
 // inputs (fields separated by one space, numbers in hex):
-//   seq <op>...                         one queue, operations applied sequentially
-//   conc  <prefill> <prog0> <prog1>...  prefill sequentially, then one goroutine per prog, free running
-//   concl <prefill> <prog0> ...         lockstep: a spin barrier before every call
-//   concg <prefill> <prog0> ...         lockstep, and the harness holds spq.Lock() until every call of
-//                                       the round is pending (methods that take no lock run anyway)
-//                                       (a prog is ops joined by ',', "-" when empty)
-//   probe <method>                      hold spq.Lock() in the harness and call the method from
-//                                       another goroutine
-//   ops:  u:<id>:<prio> Push   o Pop   t PopWithTimer(expired timer)   k Peek   r:<id> RemoveExtrinsic
-//         e:<id> Exists        n Len   g Pending
+//
+//	seq <op>...                         one queue, operations applied sequentially
+//	conc  <prefill> <prog0> <prog1>...  prefill sequentially, then one goroutine per prog, free running
+//	concl <prefill> <prog0> ...         lockstep: a spin barrier before every call
+//	concg <prefill> <prog0> ...         lockstep, and the harness holds spq.Lock() until every call of
+//	                                    the round is pending (methods that take no lock run anyway)
+//	                                    (a prog is ops joined by ',', "-" when empty)
+//	probe <method>                      hold spq.Lock() in the harness and call the method from
+//	                                    another goroutine
+//	ops:  u:<id>:<prio> Push   o Pop   t PopWithTimer(expired timer)   k Peek   r:<id> RemoveExtrinsic
+//	      e:<id> Exists        n Len   g Pending
+//
 // observables:
-//   seq   -> one result per op, then "idx:ok" | "idx:bad" (Item.index == position for every item,
-//            txs map consistent with the array):
-//            ok | dup | tx:<id>:<prio> | nil | u | b:0 | b:1 | n:<len> | l:<id>=<prio>,... | l:- | panic
-//   conc* -> one record per completed call, in no particular order:
-//            <tid>/<call stamp>/<ret stamp>/<op>/<result>   (prefill tid fe, final "g" has tid ff)
-//   probe -> blocked | ran
+//
+//	seq   -> one result per op, then "idx:ok" | "idx:bad" (Item.index == position for every item,
+//	         txs map consistent with the array):
+//	         ok | dup | tx:<id>:<prio> | nil | u | b:0 | b:1 | n:<len> | l:<id>=<prio>,... | l:- | panic
+//	conc* -> one record per completed call, in no particular order:
+//	         <tid>/<call stamp>/<ret stamp>/<op>/<result>   (prefill tid fe, final "g" has tid ff)
+//	probe -> blocked | ran
 package transaction
 
 import (
